@@ -637,7 +637,8 @@ impl ArrayLike for PickObjectKeyValues {
 		Ok(Some(
 			KeyValue::into_untyped(KeyValue {
 				key: key.clone(),
-				value: Thunk::evaluated(self.obj.get_or_bail(key.clone())?),
+				// Only the pair itself is requested here, not the field value
+				value: self.obj.get_lazy_or_bail(key.clone()),
 			})
 			.expect("convertible"),
 		))
